@@ -641,7 +641,14 @@ func c11Contexts(leaves []*axNode, hole *axNode, f func(*axNode)) {
 	for _, op := range c11Unary {
 		f(&axNode{K: "un", Op: op, Kids: []*axNode{hole}})
 	}
+	for _, op := range []string{"++", "--"} {
+		f(&axNode{K: "pre", Op: op, Kids: []*axNode{hole}})
+		f(&axNode{K: "post", Op: op, Kids: []*axNode{hole}})
+	}
 	for _, b := range leaves {
+		for _, op := range []string{"=", "+=", "<<="} {
+			f(&axNode{K: "asg", Op: op, Kids: []*axNode{hole, b}})
+		}
 		for _, op := range c11Binary {
 			f(&axNode{K: "bin", Op: op, Kids: []*axNode{hole, b}})
 			f(&axNode{K: "bin", Op: op, Kids: []*axNode{b, hole}})
